@@ -230,7 +230,7 @@ def opts_args(o):
     return a
 
 
-def run_history(text, opts, d, profile="debug", keep_snaps=False, timeout=120, expect=None):
+def run_history(text, opts, d, profile="debug", keep_snaps=False, timeout=120, expect=None, wrap=None, env=None):
     """Run one history: reference (filter + expectations), then the library. Returns a dict with
     'diffs' (list of (index, command, expected, actual)), counts, snapshot paths."""
     os.makedirs(d, exist_ok=True)
@@ -247,9 +247,9 @@ def run_history(text, opts, d, profile="debug", keep_snaps=False, timeout=120, e
     dbp = os.path.join(d, "t.db")
     snapdir = os.path.join(d, "snap")
     os.makedirs(snapdir, exist_ok=True)
-    cmd = [harness_bin(profile), "run", dbp, fp] + opts_args(opts) + ["--snapdir", snapdir]
+    cmd = (wrap or []) + [harness_bin(profile), "run", dbp, fp] + opts_args(opts) + ["--snapdir", snapdir]
     try:
-        p = subprocess.run(cmd, stdout=subprocess.PIPE, stderr=subprocess.PIPE, timeout=timeout, text=True, errors="replace")
+        p = subprocess.run(cmd, stdout=subprocess.PIPE, stderr=subprocess.PIPE, timeout=timeout, text=True, errors="replace", env=env)
         rc, out = p.returncode, p.stdout
     except subprocess.TimeoutExpired as e:
         rc, out = 124, (e.stdout.decode(errors="replace") if e.stdout else "")
